@@ -202,6 +202,26 @@ class C19(Prop):
     partial = "freedom from data races between goroutines is a Go-runtime fact exercised (16 goroutines) but not proved"
 
 
+class C12(Prop):
+    id = "C12"
+    lean_module = "Props.C12"
+    streams = [("C12", "gendrv", 1.0)]
+    budgets = {"quick": 30000, "thorough": 400000}
+    rule = ("outbound: events with commands read/response/write and 3,4,15,255, corner-biased 16-bit sources and destinations, "
+            "payload lengths 0,1,2,3,14,15,16,17,100,254 built by the real buildGroupOutbound (hook), compared with the model, "
+            "checked against the documented shape, then encoded in a routing indication, decoded and pushed through the real "
+            "serveGroupInbound (end to end); inbound: all 8 message kinds x both address types x APCI 0..15 x data/control "
+            "units through the real filter, compared with the model and with the rule written independently; the group channel "
+            "must close with its input. distinct = distinct operation lines.")
+    technique = "Lean 4 proof (frame shape against the independent layout spec, filter iff, end-to-end law through the proven codec round trip) over regenerated flag helpers + differential correspondence through the verif hooks"
+    level_text = ("Theorems for every event: the outbound frame is flagged group, hop count 6, low priority, standard-frame flag iff "
+                  "payload <= 15 bytes, APCI = command, payload and addresses as given (read off the frame with the independent "
+                  "layout accessors); an inbound message surfaces iff it is an L_Data.ind to a group address with an application "
+                  "unit and APCI < 3, with the same fields; an event encoded by one client, decoded (Go-slice level decoder) and "
+                  "filtered by another arrives with empty payload -> [0] and first byte & 63, else unchanged (uses the C02 round-trip "
+                  "theorem); the forwarder preserves order and ends with its input.")
+
+
 class C15(Prop):
     id = "C15"
     lean_module = "Props.C15"
@@ -412,7 +432,7 @@ class C14(Proto):
                   "and read in order; after Close Inbound is closed.")
 
 
-ALL = {c.id: c for c in [C01, C02, C03, C04, C06, C07, C08, C09, C10, C11, C13, C14, C15, C17, C18, C19]}
+ALL = {c.id: c for c in [C12, C01, C02, C03, C04, C06, C07, C08, C09, C10, C11, C13, C14, C15, C17, C18, C19]}
 NOT_CLAIMED = {}
 
 
